@@ -10,6 +10,7 @@ from .. import common, instrument as ins, w2
 from . import _w2case
 
 ID = "C09"
+KNOWN_CEILING = {'k8_bankrupt_shadow_keeps_trading': 0.02}   # share of all evaluations a known finding may reach before it counts as a violation again
 LEVEL = "exploration"
 RULE = ("Nested W2 backtests whose child stacks start with a calendar scheduler and contain no random algo; parents vary the allocation schedule "
         "(monthly/weekly/once/daily/every-n, weights incl. 0 so that a child never holds capital). Each child definition is additionally run alone "
